@@ -671,10 +671,47 @@ def _message_length(ctx, repo, msg):
                nontrivial=False)
     # dump
     dp = ctx.need(msg.methods.get("dump"), "DiameterMessage.dump")
-    order = concat_order(dp)
-    got = order or []
-    ok = len(got) == 2 and got[0] == ("self.header.dump()", None) and got[1][0].endswith(".dump()") and \
-        got[1][1] in ("for avp in self.avps", "for avp in self._avps")
+    # one alternative per way through the `if`s that contain a return (an early exit for the empty list is the same emission:
+    # the iteration over an empty list contributes nothing)
+    import copy as _copy
+
+    def _has_ret(ss):
+        return any(isinstance(n_, ast.Return) for s_ in ss for n_ in ast.walk(s_))
+
+    def _lin(stmts):
+        for i_, s_ in enumerate(stmts):
+            if isinstance(s_, ast.If) and (_has_ret(s_.body) or _has_ret(s_.orelse)):
+                out_ = []
+                for g_, br_ in ((ast.unparse(s_.test), s_.body), (f"not ({ast.unparse(s_.test)})", s_.orelse)):
+                    tail_ = list(br_) + ([] if br_ and isinstance(br_[-1], ast.Return) else list(stmts[i_ + 1:]))
+                    for g2_, rest_ in _lin(tail_):
+                        out_.append(([g_] + g2_, list(stmts[:i_]) + rest_))
+                return out_
+        return [([], list(stmts))]
+    alts = []
+    for guards_, stmts_ in _lin([s_ for s_ in dp.body]):
+        f2 = _copy.copy(dp)
+        f2.body = stmts_
+        alts.append((guards_, concat_order(f2) or []))
+    empty_guards = {"not (self.avps)", "not (self._avps)", "not self.avps", "not self._avps"}
+    nonempty = {"self.avps", "self._avps"}
+
+    _once = {}
+    for n_ in ast.walk(dp):
+        if isinstance(n_, ast.Assign) and len(n_.targets) == 1 and isinstance(n_.targets[0], ast.Name):
+            _once.setdefault(n_.targets[0].id, []).append(ast.unparse(n_.value))
+    _augs = {n_.target.id for n_ in ast.walk(dp) if isinstance(n_, ast.AugAssign) and isinstance(n_.target, ast.Name)}
+
+    def _alt_ok(guards_, got_):
+        # a piece that is a local bound exactly once (and never extended) stands for its value
+        got_ = [(_once[e_][0], g_) if e_ in _once and len(_once[e_]) == 1 and e_ not in _augs else (e_, g_) for e_, g_ in got_]
+        strip = lambda g: next((g[len(n_) + 5:] for n_ in nonempty if g and g.startswith(n_ + " and ")), g)
+        full = len(got_) == 2 and got_[0] == ("self.header.dump()", None) and got_[1][0].endswith(".dump()") and \
+            strip(got_[1][1]) in ("for avp in self.avps", "for avp in self._avps")
+        only_header = got_ == [("self.header.dump()", None)] and any(g in empty_guards for g in guards_)
+        return full or only_header
+    ok = bool(alts) and all(_alt_ok(g_, o_) for g_, o_ in alts) and any(len(o_) == 2 for _, o_ in alts)
+    got = [o_ for _, o_ in alts]
     ctx.decide(ok, "R-TABLE/layout", f"{msg.qual}.dump", msg.where(dp),
                "header.dump() then every listed AVP's dump() in list order",
                f"message dump concatenates {got}: expected the header followed by a plain iteration over the AVP list",
